@@ -64,6 +64,23 @@ def _scenario(draw, feedback=False):
                 while t["id"] in seen_t:
                     t["id"] = t["id"].replace(".", "9.", 1) if "." in t["id"] else t["id"] + "9"
                 seen_t.add(t["id"])
+    if src.bool(0.3) and len(sc["chroms"]) < len(S.CHROM_NAMES):
+        # a copy of one gene (and of its reads) at the very same coordinates of another contig: exons that differ in
+        # nothing but the contig
+        g = src.choice(sc["genes"])
+        name = [n for n in S.CHROM_NAMES if n not in set(c[0] for c in sc["chroms"])][0]
+        length = [c[1] for c in sc["chroms"] if c[0] == g["chr"]][0]
+        sc["chroms"].append([name, length, src.int(1, 10 ** 6)])
+        clone = {"id": g["id"] + "_copy", "chr": name, "strand": g["strand"], "canon": g.get("canon", "canon"),
+                 "transcripts": [{"id": t["id"] + "_copy", "exons": [list(e) for e in t["exons"]]}
+                                 for t in g["transcripts"]]}
+        sc["genes"].append(clone)
+        sc["overrides"] += [[name, o[1], o[2]] for o in sc["overrides"] if o[0] == g["chr"]]
+        gs = min(t["exons"][0][0] for t in g["transcripts"]) - 100
+        ge = max(t["exons"][-1][1] for t in g["transcripts"]) + 100
+        for r in list(sc["reads"]):
+            if r.get("c") == g["chr"] and gs <= r["p"] <= ge:
+                sc["reads"].append(S.shift_read(r, name, 0, name=r["n"] + "c"))
     sc["opts"] = ["--data_type", src.choice(["nanopore", "pacbio_ccs"]), "--no_gzip", "--threads",
                   str(src.choice([1, 1, 2])), "--model_construction_strategy", src.choice(["default_ont", "default_pacbio", "sensitive_pacbio", "all"])]
     sc.pop("truth", None)
